@@ -357,6 +357,16 @@ empty @is_you(int a, int b) {
 ]
 
 TEMPLATES += [
+    # preempt blocks inside loops of (recursive) defeat functions, the defeat raised inside the function itself
+    ('preempt_in_loop_of_defeat_fn', '''int x = 0;
+empty !scan(int n, int bad) { for (int i = 1; i <= n; i += 1) { preempt { write(i); x = i; } if (i == bad) { !is_defeat(); } } write('e'); }
+empty !wh(int n, int bad) { int i = 0; while (i < n) { i += 1; preempt { write('w'); continue; } !truth_is_defeat(i == bad); write('k'); } }
+empty !nest(int n, int bad) { for (int i = 0; i < n; i += 1) { for (int j = 0; j < 2; j += 1) { preempt { write('p'); break; } !truth_is_defeat(i * 2 + j == bad); write('q'); } } }
+empty @is_you(int n, int bad) {
+  try { write('b'); !scan(n, bad); write('n'); } %(kind)s { write('h'); } write(x); write(' ');
+  try { write('B'); !wh(n, bad); write('N'); } %(kind)s { write('H'); } write(' ');
+  try { write('c'); !nest(n, bad); write('m'); } %(kind)s { write('G'); } write('>');
+}''', [[n, bad] for n in (0, 2, 3) for bad in (0, 1, 2, 3, 9)]),
     # library routines with internal branches (sign of write(int), write(bool), string loops) inside a try that later defeats
     ('library_calls_then_defeat', '''empty @is_you(int a, int b) {
   try { write(a); write(' '); write(0 - 7); writeln(a < b); write("str"); byte[] q = ['q', 'r']; write(q); write(a is byte); !truth_is_defeat(b == 1); write('n'); } %(kind)s { write('h'); }
